@@ -64,4 +64,4 @@ pub(super) fn write_ht(
 
 #[cfg(kani)]
 #[path = "/verif/units/kani/bitbox_writeout.rs"]
-mod verif_kani;
+pub(crate) mod verif_kani;
